@@ -191,8 +191,14 @@ def main():
         for i in (ids() if a[1] == 'all' else [a[1]]):
             cmd_verify(i, suite)
     elif a[0] == 'check':
-        for i in (ids() if a[1] == 'all' else [a[1]]):
-            cmd_check(i)
+        todo = ids() if a[1] == 'all' else [a[1]]
+        if len(todo) > 1:
+            import multiprocessing as mp
+            jobs = int(a[a.index('--jobs') + 1]) if '--jobs' in a else 8
+            with mp.get_context('fork').Pool(jobs) as pool:
+                pool.map(cmd_check, todo, chunksize=1)
+        else:
+            cmd_check(todo[0])
     elif a[0] == 'table':
         cmd_table()
 
